@@ -25,4 +25,4 @@ package controller
 //@   calls auth.SaltToken#2: requires $1 == remote
 //@   calls Header.Set#1: requires $0 == "Authorization" && $1 == "Bearer " + token
 //@   at loop 1 back: assert !has(updatedReq.Header, "Authorization")
-//@   loop 1: invariant !has(updatedReq.Header, "Authorization") && updatedReq == old(updatedReq)
+//@   loop 1: invariant !has(updatedReq.Header, "Authorization")
